@@ -294,7 +294,9 @@ def gen_n2n_case(r, cid, tran, tier):
         msgs.append(f"{d}/{hdr_for(r, proto)}/{gtok(r, n)}")
         total += n
     strip = 4 if proto == "reqrep" else 0
-    return f"case {cid} n2n {tran} {proto} d rcvmax=0 {clamp_for(r, total)} strip={strip} msgs=" + ";".join(msgs)
+    # every third two-way case runs both directions AT THE SAME TIME (sends start while incoming frames are half read)
+    duplex = " duplex=1" if proto != "reqrep" and any(m.startswith("b/") for m in msgs) and r.chance(1, 2) else ""
+    return f"case {cid} n2n {tran} {proto} d rcvmax=0 {clamp_for(r, total)} strip={strip}{duplex} msgs=" + ";".join(msgs)
 
 
 def directed_split_cases(tier):
